@@ -61,7 +61,7 @@ CLAIMS = {
          "then each operator level; equal levels associate to the left, logical chains build the balanced tree with the operands in source order, parentheses group, arguments, "
          "elements and entries keep their order; and from SOURCE TEXT: compile(text(render t)) = tree, where text writes each token followed by a space (the lexer model is proved to "
          "read such text back token for token, numbers included). Also proved: the balanced-tree leaf order for every chain length, prefix-run parity, macros expand around receiver "
-         "and arguments. String and bytes literal tokens are leaves of the trees too (any token whose decoding is known), and one-quote literals also in the source-text theorem. Outside the theorem: message literals (and what a double token denotes is C13's). Tied to the code per case: the run checks on "
+         "and arguments. String and bytes literal tokens are leaves of the trees too (any token whose decoding is known), and one-quote literals also in the source-text theorem. Message literals (dotted names, optional leading dot, fields in order) are trees of the theorem as well. Outside the theorem: trailing commas and macro calls inside a tree, which the run compares per case (and what a double token denotes is C13's). Tied to the code per case: the run checks on "
          "every tree of the theorem's domain (all trees with <= 2 operators in both renderings, random deeper ones, chains to 24, prefix runs to 7, mixed left-associative chains) that "
          "the real parser's AST is the tree's AST and that the model's lexer turns the source text into exactly the rendering the theorem is about; all other trees ("
          "nested macros, chains 2-64) are compared between the real parser, the model's parser and the expected tree."),
